@@ -255,7 +255,14 @@ def build_move(e, cache=None, shared=None):
     elif t == "cell":
         m = CellMove(build_op(e["op"]), scale_atoms=e.get("scale_atoms", True))
     elif t == "hmc":
-        m = HamiltonianDisplacementMove(operation=Verlet(dt=e["dt"], max_steps=e["steps"]))
+        if e.get("forced"):
+            from functools import partial
+
+            from quansino.utils.dynamics import maxwell_boltzmann_distribution
+
+            m = HamiltonianDisplacementMove(distribution=partial(maxwell_boltzmann_distribution, forced=True), operation=Verlet(dt=e["dt"], max_steps=e["steps"]))
+        else:
+            m = HamiltonianDisplacementMove(operation=Verlet(dt=e["dt"], max_steps=e["steps"]))
     else:
         raise ValueError(t)
     if "max_attempts" in e:
